@@ -19,7 +19,13 @@ COLS = ['amp_fraction', 'amp_consistency', 'period_consistency', 'monotonicity']
 
 def configs(tier):
     top = 7 if tier == 'quick' else 10
-    return [{'rows': r} for r in range(1, top + 1)]
+    out = [{'rows': r} for r in range(1, top + 1)]
+    # the same rule when the table does not carry the default 0..n-1 index (a slice of a longer table)
+    out += [{'rows': r, 'index': 'shifted'} for r in (3, 5)]
+    # ... and when it is reached through compute_features: the caller's thresholds are the ones applied,
+    # whatever the (amplitude-method) burst options contain
+    out += [{'rows': r, 'route': bk} for r in (3, 4) for bk in ('none', 'burst_m')]
+    return out
 
 
 def cost(cfg):
@@ -64,8 +70,30 @@ def run(ctx, cfg):
     ctx.assume(m >= 0)
     kw = {c + '_threshold': thr[c] for c in COLS}
     df = pd.DataFrame({c: list(cells[c]) for c in COLS})
+    if cfg.get('index') == 'shifted':
+        big = pd.DataFrame({c: [0.0, 0.0] + list(cells[c]) for c in COLS})
+        df = big.iloc[range(2, rows + 2)]          # index labels 2 .. rows+1
     try:
-        out = bc.detect_bursts_cycles(df, min_n_cycles=m, **kw)
+        if cfg.get('route'):
+            ff = ctx.mod('bycycle.features.features')
+            saved = (ff.compute_shape_features, ff.compute_burst_features)
+            shape_df = pd.DataFrame({'volt_amp': [1.0] * rows, 'sample_peak': list(range(rows))})
+            ff.compute_shape_features = lambda *a, **k: shape_df.copy()
+            ff.compute_burst_features = lambda *a, **k: pd.DataFrame({c: list(cells[c]) for c in COLS})
+            bk = None
+            if cfg['route'] == 'burst_m':
+                mb = ctx.integer('m_burst_options')
+                ctx.assume(mb >= 0)
+                bk = {'min_n_cycles': mb}
+            tk = dict(kw)
+            tk['min_n_cycles'] = m
+            try:
+                out = ff.compute_features(ctx.np.zeros(4), 500.0, (8.0, 12.0), burst_method='cycles', burst_kwargs=bk,
+                                          threshold_kwargs=tk)
+            finally:
+                ff.compute_shape_features, ff.compute_burst_features = saved
+        else:
+            out = bc.detect_bursts_cycles(df, min_n_cycles=m, **kw)
     except Exception as e:
         ctx.fail(exc_label(e))
         return
